@@ -58,7 +58,7 @@ CHECKS = {
         "rule": "case = (one of 3 fixed declarative profiles, entry point, data bytes of a stated class); every judged case is non-trivial (the input is confirmed unreadable); distinct by sha1 of the case; labels give the class x entry-point histogram",
         "assumptions": TRUST + ["json-gold's own Flatten is the reference for 'JSON-LD processing rejects it'"],
         "extra_builds": ["acv"],
-        "units": [unit("unreadable", "^TestC04$", 250, 6000), fuzz_unit("fuzz-compiled-data", "FuzzCompiledData", 180)],
+        "units": [unit("unreadable", "^TestC04$", 700, 8000), fuzz_unit("fuzz-compiled-data", "FuzzCompiledData", 180)],
     },
     "C17": {
         "level": "exploration",
@@ -210,7 +210,7 @@ CHECKS = {
         "level_note": "Both renderings are parsed back with yaml.v3 and compared with their trees before use; a mismatch is a discard (0 expected).",
         "rule": "case = (spelling A, spelling B, data); non-trivial = >=2 kinds of rewrite applied and the report has >=1 result; distinct by sha1 of the case",
         "assumptions": TRUST,
-        "units": [unit("respell", "^TestC15$", 40, 1200)],
+        "units": [unit("respell", "^TestC15$", 70, 800)],
     },
     "C07": {
         "level": "exploration",
